@@ -384,10 +384,10 @@ func effective(c config.Config, path string) (string, bool) {
 // config cases
 
 type cfgCase struct {
-	Set        []int  `json:"settings"` // indexes into settings
+	Set        []int    `json:"settings"` // indexes into settings
 	Names      []string `json:"names"`
-	Format     string `json:"format"`
-	Deprecated bool   `json:"with_deprecated_CacheCapacity"`
+	Format     string   `json:"format"`
+	Deprecated bool     `json:"with_deprecated_CacheCapacity"`
 }
 
 type outcome struct {
@@ -610,8 +610,11 @@ func evalRule(k ruleCase) outcome {
 	}
 	var exps []expect
 	target := d
-	if k.Place == "dataset" {
+	if k.Place == "dataset" || k.Place == "dataset-mixed-case" {
 		ds = "dataset7"
+		if k.Place == "dataset-mixed-case" {
+			ds = "MyService-API" // dataset / environment names are case-sensitive in v2
+		}
 		// a v1 rules file always has a default sampler
 		d["Sampler"] = "DeterministicSampler"
 		d["SampleRate"] = 1
@@ -866,6 +869,16 @@ func main() {
 			for _, v := range []string{"drop", "samplerate", "scope", "checknested", "cond-string", "cond-int", "cond-float", "cond-datatype", "cond-exists", "downstream-ema", "downstream-dynamic", "downstream-throughput", "two-rules"} {
 				ruleCases = append(ruleCases, ruleCase{Kind: "rules", Sampler: "RulesBasedSampler:", Variant: v, Place: place, Format: f})
 			}
+		}
+	}
+
+	// a dataset / environment section whose name has upper-case letters (v2 looks samplers up by exact name)
+	for _, f := range formats {
+		for _, sp := range samplerSpecs {
+			ruleCases = append(ruleCases, ruleCase{Kind: "sampler", Sampler: sp.Type, Field: "*", Place: "dataset-mixed-case", Format: f})
+		}
+		for _, v := range []string{"samplerate", "downstream-dynamic"} {
+			ruleCases = append(ruleCases, ruleCase{Kind: "rules", Sampler: "RulesBasedSampler:", Variant: v, Place: "dataset-mixed-case", Format: f})
 		}
 	}
 
